@@ -39,7 +39,7 @@ var provs = []env.ProvSpec{{Name: "p0", ID: "id-p0"}, {Name: "p1", ID: "id-p1"}}
 type JwsSpec struct {
 	Ser      string // flat | general | compact
 	KeyMode  string // kid | jwk | both | neither
-	SignWith string // req | other | cert
+	SignWith string // req | other | cert | forge (the key of the forged certificate, revoke with Payload=forged)
 	JwkOf    string // req | cert | rsa1024 | fresh | invalid
 	JwkAlg   string // "alg" member put inside the embedded jwk
 	Alg      string // protected alg ("" = natural algorithm of the signing key)
@@ -64,7 +64,8 @@ type Case struct {
 	Own     int    // owner of the addressed resource: 0..2 | 3 non-existent id
 	AzOwn   int    // challenge route only: owner of the authorization id in the URL (-1 = Own)
 	Which   string // valid | pending
-	Payload string // valid | empty | emptyjson | garbage | deactivate | onlyexisting
+	Payload string // valid | empty | emptyjson | garbage | deactivate | onlyexisting | forged (revoke: self-signed certificate with the victim's serial)
+	ProvSwap bool  // the provisioner named in the URL has been re-created under the same name with another id
 	J       JwsSpec
 }
 
